@@ -10,7 +10,11 @@ import asyncio
 import sys
 import threading
 
+import contextvars
+
 GUARD_GROUPS = ("cond", "unless")
+# which sender task is executing (asyncio): tasks created by gather() inherit the sender's context
+SENDER = contextvars.ContextVar("sim_sender", default=None)
 
 
 class SimFault(Exception):
@@ -285,6 +289,9 @@ class Sim:
 
     def sender_id(self):
         s = getattr(self.tl, "sender", None)
+        if s is not None:
+            return s
+        s = SENDER.get()
         if s is not None:
             return s
         try:
